@@ -410,3 +410,32 @@ def probe_from_table_coarse_heavy_oil(ck, desc, selector: int):
             m_i = float(obj.m_i)
             if abs(float(obj.m_scaled_func(p_i)) - m_i) > 1e-12 * abs(m_i):
                 ck.violation("m_scaled_func(p_i)=m_i", {"through": "FlowPropertiesTwoPhase.from_table", "m_i": m_i, "func": float(obj.m_scaled_func(p_i))}, desc)
+
+
+def probe_copies(ck, desc, obj, pressures):
+    """Copies of a wrapper (copy.copy, copy.deepcopy, a pickle round trip - what an ensemble run, a parameter sweep or
+    a process pool makes of it) answer exactly what the original answers."""
+    import copy
+    import pickle
+
+    p = np.asarray(pressures, dtype=float)
+    with np.errstate(all="ignore"):
+        want_m = np.asarray(obj.m_scaled_func(p), dtype=float)
+        want_a = np.asarray(obj.alpha(want_m), dtype=float)
+    for how, make in (("copy.copy", copy.copy), ("copy.deepcopy", copy.deepcopy), ("pickle round trip", lambda o: pickle.loads(pickle.dumps(o)))):
+        try:
+            twin = make(obj)
+        except Exception as e:  # noqa: BLE001
+            ck.count(f"wrapper_copies_not_possible.{how}.{type(e).__name__}")
+            continue
+        try:
+            with np.errstate(all="ignore"):
+                got_m = np.asarray(twin.m_scaled_func(p), dtype=float)
+                got_a = np.asarray(twin.alpha(want_m), dtype=float)
+            same = np.array_equal(got_m, want_m, equal_nan=True) and np.array_equal(got_a, want_a, equal_nan=True) and float(twin.m_i) == float(obj.m_i)
+            detail = {"max_abs_m_scaled": float(np.nanmax(np.abs(got_m - want_m))), "m_i_copy": float(twin.m_i), "m_i": float(obj.m_i)}
+        except Exception as e:  # noqa: BLE001
+            same, detail = False, {"raised": repr(e)[:160]}
+        ck.count(f"wrapper_copies_compared.{how}")
+        if not same:
+            ck.violation("copy-answers-like-the-original", dict(detail, copy_made_by=how, wrapper=type(obj).__name__), desc)
